@@ -1,4 +1,6 @@
 import ZnVerif.Properties.C10
+import ZnVerif.Properties.C10VarInput
+import ZnVerif.Properties.C10Http
 open ZnVerif.Properties.C10
 #print axioms builtin_total
 #print axioms builtin_never_panics
@@ -30,3 +32,31 @@ open ZnVerif.Properties.C10
 #print axioms registered_patterns_wellformed
 #print axioms no_registered_golang_pattern
 #print axioms golang_cast_guarded
+
+-- input-variable texts (C10VarInput)
+#print axioms ZnVerif.Properties.C10VarInput.initial_vm_is_empty
+#print axioms ZnVerif.Properties.C10VarInput.initial_vm_invariant
+#print axioms ZnVerif.Properties.C10VarInput.eval_total_without_frames
+#print axioms ZnVerif.Properties.C10VarInput.call_total_without_frames
+#print axioms ZnVerif.Properties.C10VarInput.method_call_total_without_frames
+#print axioms ZnVerif.Properties.C10VarInput.varinput_good
+#print axioms ZnVerif.Properties.C10VarInput.varinput_total
+#print axioms ZnVerif.Properties.C10VarInput.varinput_no_nil
+#print axioms ZnVerif.Properties.C10VarInput.exprinput_good
+#print axioms ZnVerif.Properties.C10VarInput.exprinput_total
+#print axioms ZnVerif.Properties.C10VarInput.exprinputs_total
+#print axioms ZnVerif.Properties.C10VarInput.varinput_text_total
+#print axioms ZnVerif.Properties.C10VarInput.exprinput_text_total
+#print axioms ZnVerif.Properties.C10VarInput.execVarInputBytes_total
+#print axioms ZnVerif.Properties.C10VarInput.execVarInputRunes_total
+#print axioms ZnVerif.Properties.C10VarInput.evalExpressionText_total
+
+-- the value classes of pkg/common (C10Http)
+#print axioms ZnVerif.Properties.C10Http.http_request_ctor_total
+#print axioms ZnVerif.Properties.C10Http.http_response_ctor_total
+#print axioms ZnVerif.Properties.C10Http.http_request_ctor_body_total
+#print axioms ZnVerif.Properties.C10Http.http_response_ctor_body_total
+#print axioms ZnVerif.Properties.C10Http.http_ctor_arity
+#print axioms ZnVerif.Properties.C10Http.http_ctor_panicked_before_fix
+#print axioms ZnVerif.Properties.C10Http.http_member_tables
+#print axioms ZnVerif.Properties.C10Http.http_objects_have_no_methods
